@@ -188,3 +188,54 @@ def operator_programs(w):
     progs.append(('strbool', 'empty @is_you(string s, const int[] xs) { write(s is bool); write(xs is bool); if (s is bool) { write("T"); } '
                              'try { !truth_is_defeat(xs is bool); write("n"); } undo { write("d"); } write(s.length); write(xs.length); }'))
     return progs
+
+
+# ----------------------------------------------------------------------------- C01 evaluation order with side effects
+def order_programs(rng, n=None):
+    """(src, args, tag): the left operand / index / earlier argument is a mutable variable that the right operand /
+    right-hand side / later argument changes through a call; for every scalar type, storage class and consuming form.
+    The language evaluates left to right, so the old value must be used."""
+    out = []
+    types = {'int': ('3', '11', '%s'), 'byte': ('3', '11', '%s is int'), 'bool': ('true', 'false', '%s'), 'string': ('"ab"', '"wxyz"', '%s')}
+    for ty, (v0, v1, show) in types.items():
+        for storage in ('global', 'local_via_array'):
+            if storage == 'global':
+                decl_g = '%s g = %s;\n' % (ty, v0)
+                bump = ('int bump() { g = %s; return 7; }\nbyte bumpb() { g = %s; return 7; }\nbool bumpt() { g = %s; return true; }\n'
+                        'string bumps() { g = %s; return "q"; }\n' % (v1, v1, v1, v1))
+                pre, read = '', 'g'
+            else:
+                # a one-element array shared by reference: element reads are volatile in the same way
+                decl_g = ''
+                bump = ('int bump(%s[] a) { a[0] = %s; return 7; }\n' % (ty, v1)) if ty != 'string' else None
+                if bump is None: continue
+                pre, read = '%s[] ga = [%s]; ' % (ty, v0), 'ga[0]'
+            call = {'global': 'bump()', 'local_via_array': 'bump(ga)'}[storage]
+            forms = []
+            if ty in ('int', 'byte'):
+                for op in ('+', '-', '*', '<', '==', '>='):
+                    forms.append(('binop_%s' % op.strip(), 'write((%s %s %s) is int);' % (read, op, call) if op in ('<', '==', '>=')
+                                  else 'write(%s %s %s);' % (read, op, call)))
+                forms.append(('index_store', 'byte[] cells = [97, 98, 99, 100, 101, 102, 103, 104, 105, 106, 107, 108]; cells[%s] = %s is byte; write(cells);'
+                              % (read, call if storage != 'global' else 'bumpb()')))
+                forms.append(('index_store_int', 'int[] cells = [1, 2, 3, 4, 5, 6, 7, 8, 9, 10, 11, 12]; cells[%s] = %s; for (int i = 0; i < 12; i += 1) { write(cells[i]); write(\' \'); }'
+                              % (read, call)))
+                forms.append(('args', 'show2(%s, %s);' % (read, call)))
+                forms.append(('arrlit', 'int[] t = [%s, %s]; write(t[0]); write(\' \'); write(t[1]);' % (read if ty == 'int' else read + ' is int', call)))
+                forms.append(('compound', 'int acc = 100; acc += %s * %s; write(acc);' % (read, call)))
+            elif ty == 'bool':
+                tcall = call if storage != 'global' else 'bumpt()'
+                forms.append(('eq', 'write(%s == (%s == 7));' % (read, call)))
+                forms.append(('eq_int', 'write((%s is int) == %s);' % (read, call)))
+                forms.append(('args', 'showb(%s, %s);' % (read, call)))
+            else:
+                forms.append(('len_plus', 'write(%s.length + %s);' % (read, call)))
+                forms.append(('args', 'shows(%s, %s);' % (read, call)))
+            helpers = ('empty show2(int a, int b) { write(a); write(\',\'); write(b); }\n'
+                       'empty showb(bool a, int b) { write(a); write(\',\'); write(b); }\n'
+                       'empty shows(string a, int b) { write(a); write(\',\'); write(b); }\n')
+            for tag, body in forms:
+                src = decl_g + bump + helpers + 'empty @is_you() { %s%s write(\' \'); write(%s); }' % (pre, body, show % read)
+                out.append((src, [], '%s_%s_%s' % (ty, storage, tag)))
+    if n is not None and len(out) > n: out = rng.sample(out, n)
+    return out
